@@ -97,7 +97,7 @@ func Oracle(tr *udpx.Trace, unit string, limitStrict int) (string, []*engine.Fin
 				wantAuth = false
 			}
 			valid := op.Mod != "badtype" && op.Mod != "truncaddr" && op.Mod != "empty"
-			allowed := op.Mod != "private" && op.Mod != "loopback" && op.Mod != "private-domain" && op.Mod != "cgnat" && op.Mod != "cgnat-mapped" && op.Mod != "ula"
+			allowed := op.Mod != "private" && op.Mod != "loopback" && op.Mod != "private-domain" && op.Mod != "cgnat" && op.Mod != "cgnat-mapped" && op.Mod != "ula" && op.Mod != "broadcast" && op.Mod != "empty-domain"
 			forward := wantAuth && valid && allowed
 			obs += fmt.Sprintf("S%d:%v/%v/%d;", i, forward, st.AliveBefore, len(st.TargetRecv))
 			if forward {
